@@ -10,7 +10,7 @@ import json, os, re, subprocess, sys, time, hashlib, shutil, random
 ROOT = '/verif'
 REPO = os.environ.get('VERIF_REPO', '/repo')
 SPEC = ROOT + '/spec'
-BUILD = ROOT + '/build'
+BUILD = os.environ.get('VERIF_BUILD', ROOT + '/build')
 TLC_JAR = '/opt/veriftools/tla/tla2tools.jar'
 
 
@@ -52,7 +52,7 @@ def build(variant):
     p = run([ROOT + '/lib/buildrepo.sh', variant], timeout=3000)
     if p.returncode != 0:
         raise ToolError('build of /repo (%s) failed:\n%s' % (variant, p.stdout[-4000:]))
-    p = run('make -C %s/drive VARIANT=%s REPO=%s -j16' % (ROOT, variant, REPO), timeout=3000)
+    p = run('make -C %s/drive VARIANT=%s REPO=%s BUILDROOT=%s -j16' % (ROOT, variant, REPO, BUILD), timeout=3000)
     if p.returncode != 0:
         raise ToolError('driver build (%s) failed:\n%s' % (variant, p.stdout[-4000:]))
     _built.add(variant)
@@ -227,8 +227,9 @@ class Check:
         self.coverage = {}
         self.assumptions = []
         self.drift = []
-        os.makedirs(ROOT + '/replays', exist_ok=True)
-        os.makedirs(ROOT + '/evidence', exist_ok=True)
+        self.outroot = os.environ.get('VERIF_OUT', ROOT)
+        os.makedirs(self.outroot + '/replays', exist_ok=True)
+        os.makedirs(self.outroot + '/evidence', exist_ok=True)
 
     def violation(self, signature, description, replay_obj):
         """signature identifies THIS failure; matched against known_findings.json."""
@@ -239,7 +240,7 @@ class Check:
                     self.known_hit.append((k['id'], k['description']))
                 return False
         h = hashlib.sha1(signature.encode()).hexdigest()[:10]
-        path = '%s/replays/%s_%s.json' % (ROOT, self.pid, h)
+        path = '%s/replays/%s_%s.json' % (self.outroot, self.pid, h)
         with open(path, 'w') as f:
             json.dump({'property': self.pid, 'signature': signature, 'description': description,
                        'replay': replay_obj}, f, indent=1)
@@ -257,7 +258,7 @@ class Check:
         ev = {'property_id': self.pid, 'tier': self.tier, 'seed': seed(), 'level': self.level,
               'coverage': cov, 'assumptions': self.assumptions,
               'wall_s': round(time.time() - self.t0, 1), 'violations': len(self.violations)}
-        with open('%s/evidence/%s.json' % (ROOT, self.pid), 'w') as f:
+        with open('%s/evidence/%s.json' % (self.outroot, self.pid), 'w') as f:
             json.dump(ev, f, indent=1, default=str)
         for kid, desc in self.known_hit:
             log('KNOWN-FINDING: property=%s %s: %s' % (self.pid, kid, desc))
